@@ -55,6 +55,20 @@ def serve (bodyTmpl hdrTmpl varTmpl : Bytes) (r : HttpReq) : Option (Bytes × By
     | some h, some b => some (b, h)
     | _, _ => none
 
+/-- the `vars` middleware with a STRING value expands it once; with a LIST value (`[]any{"static", tmpl}`,
+    only reachable from JSON config) it stores the list as it is, and `{http.vars.v}` later prints it with
+    `fmt.Sprintf("%+v")`: `[static <tmpl text>]` — unexpanded. -/
+def varsValue (isList : Bool) (varTmpl : Bytes) (r : HttpReq) : Option Bytes :=
+  if isList then some (str "[static " ++ varTmpl ++ str "]")
+  else resBytes (replaceAll varTmpl [] (httpEnv { r with varV := [] }))
+
+/-- one request through `vars {v: …}` + `respond bodyTmpl`; the handlers keep no state, so a sequence
+    of requests is served request by request -/
+def serveBody (bodyTmpl : Bytes) (isList : Bool) (varTmpl : Bytes) (r : HttpReq) : Option Bytes :=
+  match varsValue isList varTmpl r with
+  | none => none
+  | some v => resBytes (replaceKnown bodyTmpl [] (httpEnv { r with varV := v }))
+
 /-! ### the `vars` and `vars_regexp` matchers (modules/caddyhttp/vars.go) -/
 
 def countByte (b : UInt8) (l : Bytes) : Nat := (l.filter (· = b)).length
